@@ -19,6 +19,7 @@ def parse(path_or_lines):
     for lineno, line in enumerate(it, 1):
         if not line or line[0] == '\n': continue
         t = line[0]
+        if line[-1] != '\n': stray.append(['truncated-line', lineno]); continue
         parts = line.split()
         if t == 'O':
             cur = Op(); cur.lineno = lineno
